@@ -12,7 +12,7 @@ A64_CALLEE_SAVED = ['x%d' % i for i in range(19, 31)]
 
 
 class Insn:
-    __slots__ = ('addr', 'mnem', 'ops', 'text', 'size')
+    __slots__ = ('addr', 'mnem', 'ops', 'text', 'size', 'reloc')
 
     def __init__(self, addr, mnem, ops, text):
         self.addr, self.mnem, self.ops, self.text = addr, mnem, ops, text
